@@ -1413,7 +1413,12 @@ func rulePublishWaitsForTheMessagesOwnStream(c *eng.Ctx) {
 		return
 	}
 	isMsgStream := func(v ssa.Value) bool {
-		f, _ := eng.FieldRead(eng.Strip(v))
+		v = eng.Strip(v)
+		if call := eng.AsCall(v); call != nil {
+			// the generated getter: msg.GetStream() is msg.Stream for a message that is there
+			return strings.HasSuffix(eng.CalleeRef(&call.Call), "Message.GetStream")
+		}
+		f, _ := eng.FieldRead(v)
 		return f != nil && f.Name() == "Stream"
 	}
 	named := func(n string) bool { return strings.Contains(strings.ToLower(n), "stream") }
